@@ -388,8 +388,7 @@ class Unit:
             text = rule_macroassert(text, self.rules)
         if 'R-assert' in rules:
             text = rule_assert(text, self.rules)
-        if 'R-assocconst' in rules:
-            text = rule_assocconst(text, self.rules)
+        text = rule_assocconst(text, self.rules)
         for r in rules:
             if r.startswith('R-subst:'):
                 # documented literal substitution  R-subst:from=>to  (used for path renames only)
@@ -422,6 +421,9 @@ class Unit:
         start = len(self.lines)
         if kv.get('attr'):
             self.emit('    ' + kv['attr'], dict(kind='tmpl', label=label, section='attr'))
+        forced = label in getattr(self, 'force_external', ()) and body is not None and not vacuity
+        if forced:
+            self.emit('    #[verifier::external_body]', dict(kind='tmpl', label=label, section='forced-external'))
         self.emit('    ' + sig.rstrip(), org)
         spec = sections.get('spec')
         if spec:
@@ -430,6 +432,10 @@ class Unit:
         if vacuity and body is not None and kv.get('body') != 'external':
             vorg = dict(kind='tmpl', label=label, section='vacuity')
             self.emit('    { proof { assert(false); } vstd::pervasive::unreached() }', vorg)
+            self.fn_labels[label] = dict(start=start, end=len(self.lines))
+            return
+        if forced:
+            self.emit('    { unimplemented!() }', dict(kind='tmpl', label=label, section='forced-external'))
             self.fn_labels[label] = dict(start=start, end=len(self.lines))
             return
         if body is None or kv.get('body') == 'external':
@@ -448,9 +454,41 @@ class Unit:
         """body: text starting with '{' ending with '}'. Returns list of (line, origin)."""
         bb = X.blank_comments(body)
         inserts = []   # (offset, lines, section)
+        # closure headers: annotate in place (|x| -> |x: T| -> (r: U) requires .. ensures ..)
+        for key in [k for k in sections if isinstance(k, tuple) and k[0] == 'closure']:
+            _, nth, anchor = key
+            pos, start = -1, 0
+            for _i in range(nth + 1):
+                pos = bb.find(anchor, start)
+                if pos < 0:
+                    raise LostAnchor('fn %s: closure header %r (#%d) not found' % (label, anchor, nth))
+                start = pos + 1
+            new_header = '\n'.join(sections[key])
+            body = body[:pos] + new_header + body[pos + len(anchor):]
+            bb = X.blank_comments(body)
+            self.rules.hit('closure-annotation')
         # entry
         if sections.get('entry'):
             inserts.append((1, sections['entry'], 'entry'))
+        if sections.get('tail'):
+            # wrap the tail expression:  { stmts; E }  ->  { stmts; let tail_ = E; <lines> tail_ }
+            depth, last = 0, 0
+            for k in range(1, len(bb) - 1):
+                c = bb[k]
+                if c in '([{':
+                    depth += 1
+                elif c in ')]}':
+                    depth -= 1
+                    if depth == 0 and c == '}':
+                        # a block statement (if/match/loop without trailing ;) ends here only if followed by more code
+                        pass
+                elif c == ';' and depth == 0:
+                    last = k
+            ts = last + 1 if last else 1
+            if not bb[ts:len(bb) - 1].strip():
+                raise LostAnchor('fn %s: no tail expression to wrap' % label)
+            inserts.append((ts, ['', '        let tail_ = {'], 'tailopen'))
+            inserts.append((len(body) - 1, ['};'] + sections['tail'] + ['        tail_', ''], 'tail'))
         loops = X.find_loops(bb)
         for key, lines in sections.items():
             if isinstance(key, tuple) and key[0] == 'loop':
@@ -514,7 +552,8 @@ class Unit:
         return res
 
     # ---- main ------------------------------------------------------------------------
-    def assemble(self, vacuity=False):
+    def assemble(self, vacuity=False, force_external=()):
+        self.force_external = set(force_external)
         self.lines = []
         self.items = []
         self.rules = Rules()
@@ -545,6 +584,15 @@ class Unit:
                         sections[cur] = []
                     elif t.startswith('//@entry'):
                         cur = 'entry'
+                        sections[cur] = []
+                    elif t.startswith('//@closure '):
+                        m = re.match(r'//@closure\s+(\d+)\s+"(\|.*\|)"\s*$', t)
+                        if not m:
+                            raise Unsupported('bad directive: ' + t)
+                        cur = ('closure', int(m.group(1)), m.group(2))
+                        sections[cur] = []
+                    elif t.startswith('//@tail'):
+                        cur = 'tail'
                         sections[cur] = []
                     elif t.startswith('//@loop '):
                         a = parse_kv(t[8:])
@@ -614,6 +662,8 @@ def run_verus(path, timeout=900, extra=()):
 def classify(unit, res):
     """Map diagnostics to obligations. Returns dict(errors=[...], compile_errors=[...])."""
     errors, compile_errors, notes = [], [], []
+    vr = ((res.get('json') or {}).get('verification-results') or {})
+    verification_ran = (not vr.get('encountered-vir-error', True)) and ('verified' in vr) and (vr.get('verified', 0) + vr.get('errors', 0) > 0)
     for d in res['diags']:
         if d.get('level') != 'error':
             continue
@@ -634,8 +684,16 @@ def classify(unit, res):
             'assertion failed', 'possible arithmetic', 'possible division', 'decreases not satisfied',
             'index out of bounds', 'possible bit shift', 'unreachable', 'recommendation not met',
             'could not prove', 'panic', 'might fail', 'may fail', 'underflow', 'overflow', 'resource limit', 'rlimit'))
+        if not is_verif and verification_ran and d.get('code') is None:
+            # Verus reached the SMT stage (no rustc / VIR error): every remaining error is a failed obligation
+            is_verif = True
         if not is_verif:
-            compile_errors.append(dict(message=msg, rendered=d.get('rendered', '')))
+            ce = dict(message=msg, rendered=d.get('rendered', ''), spans=[])
+            for sp in spans:
+                o, _t = org(sp)
+                if o.get('kind') == 'repo' and o.get('label') and o.get('section') in ('body', 'sig'):
+                    ce['spans'].append(dict(label=o['label']))
+            compile_errors.append(ce)
             continue
         e = dict(message=msg, rendered=d.get('rendered', ''), spans=[])
         for s in spans:
